@@ -421,7 +421,7 @@ func structFieldValue(v ssa.Value, name string) ssa.Value {
 	}
 	var out ssa.Value
 	for _, rf := range *al.Referrers() {
-		if fa, ok := rf.(*ssa.FieldAddr); ok && st.Field(fa.Field).Name() == name {
+		if fa, ok := rf.(*ssa.FieldAddr); ok && refField(fa.X.Type(), fa.Field) == name {
 			for _, rr := range *fa.Referrers() {
 				if s, ok := rr.(*ssa.Store); ok {
 					out = s.Val
